@@ -95,6 +95,7 @@ func GenTemplate(t *rapid.T, o Opts) Template {
 	if rapid.IntRange(0, 9).Draw(t, "trlEmpty") >= 5 {
 		tpl.Trailer = genItems(t, p, 3, o.MaxDepth, 1, 3, "t")
 	}
+	tpl.TrailerCS = rapid.IntRange(0, 3).Draw(t, "trailerCS") == 0
 	return tpl
 }
 
@@ -287,6 +288,9 @@ func Populate(t *rapid.T, tpl Template, po PopOpts) *Case {
 		tp.PresentPct = 0
 	}
 	c.Trailer = genPops(t, tpl.Trailer, tp, decoys, false, 0, "pt")
+	if tpl.TrailerCS && rapid.Bool().Draw(t, "trailerCSVal") {
+		c.TrailerCSVal = rapid.StringMatching(`[0-9]{3}`).Draw(t, "trailerCSText")
+	}
 	return c
 }
 
